@@ -42,6 +42,10 @@ func runHistoryChild(kind string) {
 		runConcChild()
 		return
 	}
+	if kind == "envprobe" {
+		runEnvProbeChild()
+		return
+	}
 	sc := bufio.NewScanner(os.Stdin)
 	sc.Buffer(make([]byte, 1<<20), 1<<24)
 	w := bufio.NewWriter(os.Stdout)
@@ -68,10 +72,14 @@ func runHistoryChild(kind string) {
 	fmt.Fprintf(w, "end altered-earlier-results=%d\n", altered)
 }
 
+// childEnv: extra environment ("NAME=value") for the child processes (the environment probes of envprobe.go)
+var childEnv []string
+
 // childAnswers runs a history in a fresh process and returns one answer per op (nil on failure).
 func childAnswers(ops []string) []string {
 	self, _ := os.Executable()
 	cmd := exec.Command(self, "-child", "hist")
+	cmd.Env = append(os.Environ(), childEnv...)
 	cmd.Stdin = strings.NewReader(strings.Join(ops, "\n") + "\n")
 	out, err := cmd.Output()
 	lines := strings.Split(strings.TrimRight(string(out), "\n"), "\n")
@@ -105,6 +113,7 @@ func shrinkHistory(ops []string, bad string) []string {
 func (c *Ctx) runHistory(class string, ops []string) {
 	self, _ := os.Executable()
 	cmd := exec.Command(self, "-child", "hist")
+	cmd.Env = append(os.Environ(), childEnv...)
 	cmd.Stdin = strings.NewReader(strings.Join(ops, "\n") + "\n")
 	var errb bytes.Buffer
 	cmd.Stderr = &errb
@@ -215,7 +224,8 @@ func propC13(c *Ctx) {
 	for li := range langVals {
 		valid[li] = strings.ReplaceAll(c.specSentence(int64(langVals[li]), c.randBytes(16)), "　", " ")
 	}
-	c.goMapPrimitives() // the map/sync.Once vocabulary of the translated Language.mapping vs real Go
+	c.goMapPrimitives()  // the map/sync.Once vocabulary of the translated Language.mapping vs real Go
+	c.envProbesHistory() // the package under every environment variable its source consults (none on the unchanged tree)
 	vals := []int64{}
 	sent := []string{}
 	for li := range langVals {
